@@ -537,7 +537,14 @@ pub fn run_property(prop: &dyn Property, opts: &RunOpts, golden: &[Vec<u16>]) ->
                         }
                         let sig = f.signature.clone();
                         let slot = &watch.slots[w];
+                        // all shrinking of one violation is given five minutes: after that every
+                        // further candidate counts as "does not fail" without being evaluated, so
+                        // the shrinkers keep what they have (replay size only, never the verdict)
+                        let shrink_deadline = Instant::now() + std::time::Duration::from_secs(300);
                         let fails = |t: &[u16]| -> bool {
+                            if Instant::now() > shrink_deadline {
+                                return false;
+                            }
                             *slot.lock().unwrap() = Some((Instant::now(), t.to_vec()));
                             current.record(t);
                             let r = prop
@@ -556,7 +563,7 @@ pub fn run_property(prop: &dyn Property, opts: &RunOpts, golden: &[Vec<u16>]) ->
                             let _ = fails(&tape);
                             t0.elapsed().as_secs_f64().max(1e-6)
                         };
-                        let timed = ((90.0 / t_eval) as usize).max(60);
+                        let timed = ((90.0 / t_eval) as usize).max(10);
                         let budget = prop.shrink_budget().min(timed);
                         let min = match tree {
                             Some(tree) => shrink(tree, tape.clone(), &fails, budget),
@@ -565,6 +572,9 @@ pub fn run_property(prop: &dyn Property, opts: &RunOpts, golden: &[Vec<u16>]) ->
                         // structural minimisation of the decoded case
                         let case = prop.decode_struct(&min).map(|sc| {
                             let sfails = |c: &StructCase| -> bool {
+                                if Instant::now() > shrink_deadline + std::time::Duration::from_secs(120) {
+                                    return false;
+                                }
                                 *slot.lock().unwrap() = Some((Instant::now(), min.clone()));
                                 let r = prop
                                     .eval_struct(c)
